@@ -513,7 +513,7 @@ func (r *Report) finish() int {
 		"inconclusive":                  len(r.inconclusive) > 0,
 		"inconclusive_reasons":          r.inconclusive,
 		"harnesses":                     r.hreps,
-		"solver":                        "z3 4.8.12 (z3 -in); thorough tier re-checks every unsat verdict with z3 5.1.0 (z3-new)",
+		"solver":                        "BV harnesses: z3 4.8.12 (z3 -in, incremental); INT harnesses: z3 5.1.0 (z3-new -in, non-incremental); the thorough tier re-checks every unsat verdict with the other of the two",
 		"solver_queries":                totalQ,
 		"solver_unknown":                unk,
 		"solver_s":                      solverS,
